@@ -46,6 +46,7 @@ partial def expandAlias : Ty → Ty
   | .sensitive t => .sensitive (expandAlias t)
   | .iterable t => .iterable (expandAlias t)
   | .iterator t => .iterator (expandAlias t)
+  | .callable p r b => .callable (p.map expandAlias) (r.map expandAlias) (b.map expandAlias)
   | t => t
 
 def unsafeKey (s : String) : Bool := s.any fun c => c == '\'' || c == '\n' || c == '\r'
@@ -57,6 +58,7 @@ partial def tyUnsafe : Ty → Bool
   | .struct ms => ms.any fun m => unsafeKey m.1 || tyUnsafe m.2.2
   | .variant ts => ts.any tyUnsafe
   | .optional t | .notUndef t | .typ t | .sensitive t | .iterable t | .iterator t => tyUnsafe t
+  | .callable p r b => (p.map tyUnsafe).getD false || (r.map tyUnsafe).getD false || (b.map tyUnsafe).getD false
   | _ => false
 
 def pkTag : PK → String
